@@ -37,8 +37,25 @@ def _work(arg):
         for v in res['violations']:
             v['item'] = item
         return dict(res)
-    except Exception:
-        return {'crash': traceback.format_exc(), 'item': item}
+    except Exception as e:
+        # The checks run clean on the unchanged tree, so an exception escaping a property module on some other tree is
+        # caused by that tree (a library call raising, or returning something of an unexpected shape / dtype / structure).
+        # It is reported as a violation of the property (reproduced once first); only infrastructure failures exit 2.
+        tb = traceback.format_exc()
+        try:
+            mod.run(item)
+            return {'crash': tb, 'item': item}          # not reproducible: the harness is at fault
+        except Exception as e2:
+            if type(e2) is not type(e):
+                return {'crash': tb, 'item': item}
+        res = common.Res()
+        cfg = {k: v for k, v in item.items() if k not in ('ref',) and not isinstance(v, (dict,))}
+        cfg = json.loads(json.dumps(cfg, default=str))
+        res.violation('exception_in_check', cfg, {'kind': 'raise', 'exc': repr(e)[:300], 'where': tb.strip().splitlines()[-3:][0].strip()[:200]}, [])
+        res['ophashes'] += ['exc0', 'exc1']
+        for v in res['violations']:
+            v['item'] = item
+        return dict(res)
 
 
 def load_findings():
